@@ -25,7 +25,7 @@ RULE = ("states = distinct trivia variants / lexeme strings; transitions = real 
 
 LONG_TRIVIA = ["// " + "x" * 1030 + "\n", "// " + " " * 5000 + "salt: 'old'\n", "/* " + "y" * 70000 + " */", " " * 3000, "\n" * 600, "// " + "z" * 70000 + "\n",
                "/* " + "line\n" * 3000 + "*/", "\t" * 2000]
-TRIVIA = ["// def x {\n", "/* def */", "/* def e { return 1 weighted 1 } */", "// undef def redefine\n", "// def demo { return 1 weighted 1 } /*\n", "/* a *\ufeff/ b */", "/* \ufeff */", "// \ufeff x\n", "/* *\u200b/ x */", "/* *\u00ad/ x */", "// c\r x\n", "// c\x0b x\n", "// c\x0c x\n", "// c\x1c x\n", "// c\x85 x\n", "// c\u2028 x\n", "// c\u2029, \"b\" weighted 1\n", "/* c\r x */",
+TRIVIA = ["// C:\\Users\\new\\x\n", '/* """ */', "// \\N{x} \\x \\u12\n", "/* \\ */", "// def x {\n", "/* def */", "/* def e { return 1 weighted 1 } */", "// undef def redefine\n", "// def demo { return 1 weighted 1 } /*\n", "/* a *\ufeff/ b */", "/* \ufeff */", "// \ufeff x\n", "/* *\u200b/ x */", "/* *\u00ad/ x */", "// c\r x\n", "// c\x0b x\n", "// c\x0c x\n", "// c\x1c x\n", "// c\x85 x\n", "// c\u2028 x\n", "// c\u2029, \"b\" weighted 1\n", "/* c\r x */",
           " ", "\t", "\n", "\r\n", "  \n  ", "\f", "\v", "\r", "// c", "/* */ //", "// c\n", "//\n", "// ' \"\n", "// /* \n", "// */ x\n", "/* c */", "/**/", "/***/",
           "/* * / */", "/* ' */", '/* " */', "/* // */", "/* if return */", "/* a */ /* b */", "/* a */\n/* b */", "/* m\nl */",
           "/* é */", "// é\n", "/*\n*/", "/* x **/", "/* a */ // b\n", "/* } */", "/* \"s\" weighted 1, */"]  # fmt: skip
@@ -101,6 +101,21 @@ def check_variants(acc, name, base_text, gen):
                            "observed": short(repr(p[1:]), 200), "why": "AST differs from the base program's AST"})  # fmt: skip
             continue
         acc.outcomes.add("same-ast")
+        if key[0] == 0:
+            # the other entry point: module text generated from the variant must exist and be executable too
+            g = impl.gen(text, False)
+            acc.add("evaluations")
+            err = None
+            if g[0] != "ok":
+                err = list(g)
+            else:
+                try:
+                    exec(compile(g[1], "<generated>", "exec"), {})
+                except Exception as e:  # noqa
+                    err = f"{type(e).__name__}: {e}"
+            if err is not None:
+                acc.violation({"kind": f"trivia:{key[2]}", "sub": "module", "text": text, "base": name, "trivia": key[1], "gap": key[0], "observed": short(repr(err), 200),
+                               "why": "generate_code fails / yields invalid Python for this variant although it does for the base program"})  # fmt: skip
         if key[0] % 7 == 0:
             b = impl.build(text)
             acc.add("evaluations", len(envs))
@@ -269,9 +284,21 @@ def units(tier):
     return out
 
 
+def _hostile_work(names):
+    us = []
+    for n in names:
+        us += [("orig", n), ("single", n, TRIVIA[:12]), ("single", n, ["/* c */", "/* a */ /* b */", "/* m\nl */", "// c\n", "/**/", "\r\n"])]
+    out = _work(us)
+    out["outcomes"] = [str(o) for o in out["outcomes"]]
+    return out
+
+
 def run(res, tier):
     for w in pmap(_work, permuted(units(tier), "c08"), chunk=1):
         res.merge_worker(w)
+    from ..common import hostile_runs
+
+    hostile_runs(res, "mc.checks.c08", "_hostile_work", ["salt", "comments"])
     res.set("states", res.cov.get("programs", 0))
     res.set("transitions", res.cov.get("evaluations", 0))
     res.set("traces_validated_against_impl", res.cov.get("evaluations", 0))
@@ -280,6 +307,10 @@ def run(res, tier):
 
 
 def replay(data):
+    if data.get("host_environment"):
+        from ..common import replay_in_host
+
+        return replay_in_host(data, "mc.checks.c08", "_hostile_work", [data.get("base", "salt")])
     if data.get("kind") == "lexseq":
         acc = progcheck.Acc()
         lex_compare(acc, data["text"])
